@@ -3,7 +3,11 @@
 //!   h_c11 run [file]      answer requests (one per line)
 //!   h_c11 src             read ONE request from stdin, print the rendered Dora source
 //!   h_c11 prog <file>     print ONE Dora program that evaluates every finite request of the file
+//!   h_c11 genlit <n>     literal-scrutinee requests (lm ...) for the run-time leg (seeded by VERIF_SEED)
 //! request:  (m (D*) T (A*))   -- see the grammar in DESIGN / the task description
+//!           (lm L (A*) (V*))  -- L = Int64|Int32|UInt8|Char|Str; arms over `_`, (v x), (i N [d|p|x|b|u]), (k N) (a
+//!                                `const` of the scrutinee type), (c N), (s w), (| ..); V* = the selector values the
+//!                                compiled match is run on (integers / code points / words, `-` = empty string)
 //! response: exhaustive useless[..] | missing[..] useless[..] | !panic file:line | !error .. | !badreq
 use hutil::Rng;
 use std::cell::RefCell;
@@ -64,6 +68,11 @@ enum Pat {
     Var(String),
     Bool(bool),
     Int(i64),
+    /// integer literal with a spelling: d = decimal with type suffix, p = decimal without suffix, x = hex,
+    /// b = binary (both two's complement at the type's width for negative values), u = decimal with `_` separators
+    IntS(i64, char),
+    /// identifier resolved to a `const` of the scrutinee's (integer) type with this value
+    Const(i64),
     Char(u32),
     Str(String),
     Alt(Vec<Pat>),
@@ -84,6 +93,30 @@ struct Req {
     decls: Vec<Decl>,
     ty: Ty,
     arms: Vec<(bool, Pat)>, // (guarded, pattern)
+    lit: Option<LitReq>,    // Some = an `lm` request
+}
+
+#[derive(Clone, Debug, PartialEq)]
+enum LVal {
+    I(i64),
+    S(String),
+}
+
+/// the extra parts of an `lm` request: the concrete scrutinee type and the selector values
+#[derive(Clone, Debug)]
+struct LitReq {
+    lty: &'static str, // Int64 | Int32 | UInt8 | Char | Str
+    values: Vec<LVal>,
+}
+
+fn lit_range(lty: &str) -> (i64, i64) {
+    match lty {
+        "Int64" => (i64::MIN, i64::MAX),
+        "Int32" => (i32::MIN as i64, i32::MAX as i64),
+        "UInt8" => (0, 255),
+        "Char" => (0, 0x10FFFF),
+        _ => (0, 0),
+    }
 }
 
 fn find_decl<'a>(decls: &'a [Decl], name: &str) -> Option<&'a Decl> {
@@ -228,6 +261,16 @@ fn p_pat(x: &Sx) -> Option<Pat> {
             match head {
                 "v" if l.len() == 2 && is_ident(atom(&l[1])?) => Some(Pat::Var(atom(&l[1])?.to_string())),
                 "i" if l.len() == 2 => Some(Pat::Int(atom(&l[1])?.parse().ok()?)),
+                "i" if l.len() == 3 => {
+                    let sp = atom(&l[2])?;
+                    if !["d", "p", "x", "b", "u"].contains(&sp) {
+                        return None;
+                    }
+                    Some(Pat::IntS(atom(&l[1])?.parse().ok()?, sp.chars().next()?))
+                }
+                "k" if l.len() == 2 && atom(&l[1])?.parse::<i64>().is_ok() => {
+                    Some(Pat::Const(atom(&l[1])?.parse().ok()?))
+                }
                 "c" if l.len() == 2 => {
                     let c: u32 = atom(&l[1])?.parse().ok()?;
                     char::from_u32(c)?;
@@ -275,6 +318,9 @@ fn p_subs(xs: &[Sx]) -> Option<Vec<Sub>> {
 fn p_req(line: &str) -> Option<Req> {
     let sx = parse_sx(line)?;
     let l = list(&sx)?;
+    if l.len() == 4 && atom(&l[0])? == "lm" {
+        return p_lit_req(l);
+    }
     if l.len() != 4 || atom(&l[0])? != "m" {
         return None;
     }
@@ -312,7 +358,86 @@ fn p_req(line: &str) -> Option<Req> {
     if !known(&ty, &seen) {
         return None;
     }
-    Some(Req { decls, ty, arms })
+    Some(Req { decls, ty, arms, lit: None })
+}
+
+fn p_arms(x: &Sx) -> Option<Vec<(bool, Pat)>> {
+    let mut arms = Vec::new();
+    for a in list(x)? {
+        let al = list(a)?;
+        if al.len() != 2 {
+            return None;
+        }
+        let g = match atom(&al[0])? {
+            "n" => false,
+            "g" => true,
+            _ => return None,
+        };
+        arms.push((g, p_pat(&al[1])?));
+    }
+    Some(arms)
+}
+
+/// is the (flat) pattern well-formed for a literal scrutinee of type `lty`?
+fn lit_pat_ok(p: &Pat, lty: &str, top: bool) -> bool {
+    let (lo, hi) = lit_range(lty);
+    let int = matches!(lty, "Int64" | "Int32" | "UInt8");
+    match p {
+        Pat::Wild => true,
+        Pat::Var(_) => top,
+        Pat::Int(i) | Pat::IntS(i, _) | Pat::Const(i) => int && *i >= lo && *i <= hi,
+        Pat::Char(c) => lty == "Char" && char_src(*c).is_some(),
+        Pat::Str(_) => lty == "Str",
+        Pat::Alt(ps) => top && ps.iter().all(|q| lit_pat_ok(q, lty, false)),
+        _ => false,
+    }
+}
+
+fn p_lit_req(l: &[Sx]) -> Option<Req> {
+    let (lty, ty): (&'static str, Ty) = match atom(&l[1])? {
+        "Int64" => ("Int64", Ty::Int),
+        "Int32" => ("Int32", Ty::Int),
+        "UInt8" => ("UInt8", Ty::Int),
+        "Char" => ("Char", Ty::Char),
+        "Str" => ("Str", Ty::Str),
+        _ => return None,
+    };
+    let arms = p_arms(&l[2])?;
+    if arms.is_empty() || arms.len() > 62 || !arms.iter().all(|a| lit_pat_ok(&a.1, lty, true)) {
+        return None;
+    }
+    let (lo, hi) = lit_range(lty);
+    let mut values = Vec::new();
+    for v in list(&l[3])? {
+        let a = atom(v)?;
+        if lty == "Str" {
+            if a != "-" && !a.chars().all(|c| c.is_ascii_lowercase() || c.is_ascii_digit()) {
+                return None;
+            }
+            values.push(LVal::S(if a == "-" { String::new() } else { a.to_string() }));
+        } else {
+            let i: i64 = a.parse().ok()?;
+            if i < lo || i > hi || (lty == "Char" && char::from_u32(i as u32).is_none()) {
+                return None;
+            }
+            values.push(LVal::I(i));
+        }
+    }
+    Some(Req { decls: Vec::new(), ty, arms, lit: Some(LitReq { lty, values }) })
+}
+
+/// a character literal as it is written in the program text; None for characters the generator does not write
+fn char_src(c: u32) -> Option<String> {
+    let ch = char::from_u32(c)?;
+    Some(match ch {
+        '\0' => "'\\0'".to_string(),
+        '\n' => "'\\n'".to_string(),
+        '\t' => "'\\t'".to_string(),
+        '\r' => "'\\r'".to_string(),
+        '\'' | '\\' => format!("'\\{}'", ch),
+        c if (c as u32) < 0x20 || c as u32 == 0x7f => return None,
+        _ => format!("'{}'", ch),
+    })
 }
 
 // ───────────────────────────── request printer ─────────────────────────────
@@ -387,6 +512,8 @@ fn show_pat(p: &Pat) -> String {
         Pat::Var(n) => format!("(v {})", n),
         Pat::Bool(b) => b.to_string(),
         Pat::Int(i) => format!("(i {})", i),
+        Pat::IntS(i, s) => format!("(i {} {})", i, s),
+        Pat::Const(i) => format!("(k {})", i),
         Pat::Char(c) => format!("(c {})", c),
         Pat::Str(s) if s.is_empty() => "(s)".into(),
         Pat::Str(s) => format!("(s {})", s),
@@ -405,6 +532,19 @@ fn show_req(r: &Req) -> String {
         .map(|(g, p)| format!("({} {})", if *g { "g" } else { "n" }, show_pat(p)))
         .collect::<Vec<_>>()
         .join(" ");
+    if let Some(lit) = &r.lit {
+        let v = lit
+            .values
+            .iter()
+            .map(|v| match v {
+                LVal::I(i) => i.to_string(),
+                LVal::S(s) if s.is_empty() => "-".to_string(),
+                LVal::S(s) => s.clone(),
+            })
+            .collect::<Vec<_>>()
+            .join(" ");
+        return format!("(lm {} ({}) ({}))", lit.lty, a, v);
+    }
     format!("(m ({}) {} ({}))", d, show_ty(&r.ty), a)
 }
 
@@ -418,17 +558,97 @@ struct Renderer<'a> {
     prefix: &'a str,
     out: String,
     spans: SpanTable,
+    /// source type of `Ty::Int` (Int64 unless the request is an `lm` request over Int32 / UInt8)
+    int_ty: &'static str,
+    /// values of the `const` declarations the patterns refer to
+    consts: Vec<i64>,
+}
+
+/// an integer of type `int_ty` as an EXPRESSION (negative values parenthesised, the minimum computed)
+fn int_expr(i: i64, int_ty: &str) -> String {
+    let sfx = match int_ty {
+        "Int32" => "i32",
+        "UInt8" => "u8",
+        _ => "",
+    };
+    let (lo, _) = lit_range(int_ty);
+    if i == lo && i < 0 {
+        format!("(-{}{} - 1{})", -(i + 1), sfx, sfx)
+    } else if i < 0 {
+        format!("(-{}{})", -i, sfx)
+    } else {
+        format!("{}{}", i, sfx)
+    }
+}
+
+/// an integer literal PATTERN of type `int_ty` in the given spelling
+fn int_pat_src(i: i64, sp: char, int_ty: &str) -> String {
+    let sfx = match int_ty {
+        "Int32" => "i32",
+        "UInt8" => "u8",
+        _ => "",
+    };
+    let bits: u64 = match int_ty {
+        "Int32" => i as i32 as u32 as u64,
+        "UInt8" => i as u8 as u64,
+        _ => i as u64,
+    };
+    match sp {
+        'p' => i.to_string(),
+        'x' => format!("0x{:X}{}", bits, sfx),
+        'b' => format!("0b{:b}{}", bits, sfx),
+        'u' => {
+            let digits = i.unsigned_abs().to_string();
+            let mut s = String::new();
+            for (k, ch) in digits.chars().enumerate() {
+                if k > 0 && (digits.len() - k) % 3 == 0 {
+                    s.push('_');
+                }
+                s.push(ch);
+            }
+            format!("{}{}{}", if i < 0 { "-" } else { "" }, s, sfx)
+        }
+        _ => format!("{}{}", i, sfx),
+    }
+}
+
+fn const_name(prefix: &str, i: i64) -> String {
+    if i < 0 {
+        format!("{}KM{}", prefix, i.unsigned_abs())
+    } else {
+        format!("{}KP{}", prefix, i)
+    }
 }
 
 impl<'a> Renderer<'a> {
     fn new(decls: &'a [Decl], prefix: &'a str, out: String) -> Renderer<'a> {
-        Renderer { decls, prefix, out, spans: HashMap::new() }
+        Renderer { decls, prefix, out, spans: HashMap::new(), int_ty: "Int64", consts: Vec::new() }
+    }
+
+    fn for_req(req: &'a Req, prefix: &'a str, out: String) -> Renderer<'a> {
+        let mut r = Renderer::new(&req.decls, prefix, out);
+        if let Some(lit) = &req.lit {
+            if matches!(lit.lty, "Int32" | "UInt8") {
+                r.int_ty = lit.lty;
+            }
+        }
+        r
+    }
+
+    /// the `const` declarations collected while rendering the patterns
+    fn consts_src(&mut self) {
+        let mut cs = std::mem::take(&mut self.consts);
+        cs.sort();
+        cs.dedup();
+        for c in cs {
+            self.out += &format!("const {}: {} = {};\n", const_name(self.prefix, c), self.int_ty, int_expr(c, self.int_ty));
+        }
     }
 
     fn ty_src(&self, t: &Ty) -> String {
         match t {
             Ty::Bool => "Bool".into(),
-            Ty::Int => "Int64".into(),
+            Ty::Int => self.int_ty.into(),
             Ty::Char => "Char".into(),
             Ty::Str => "String".into(),
             Ty::Named(n) => match find_decl(self.decls, n) {
@@ -481,6 +701,7 @@ impl<'a> Renderer<'a> {
             self.out += &format!(" => {},\n", i);
         }
         self.out += "  }\n}\n";
+        self.consts_src();
     }
 
     fn subs(&mut self, ss: &[Sub], arm: usize, path: &mut Vec<usize>) {
@@ -508,14 +729,14 @@ impl<'a> Renderer<'a> {
             Pat::Wild => self.out += "_",
             Pat::Var(n) => self.out += n,
             Pat::Bool(b) => self.out += &b.to_string(),
-            Pat::Int(i) => self.out += &i.to_string(),
-            Pat::Char(c) => {
-                let ch = char::from_u32(*c).unwrap_or('?');
-                self.out += &match ch {
-                    '\'' | '\\' => format!("'\\{}'", ch),
-                    _ => format!("'{}'", ch),
-                };
+            Pat::Int(i) if self.int_ty == "Int64" => self.out += &i.to_string(),
+            Pat::Int(i) => self.out += &int_pat_src(*i, 'd', self.int_ty),
+            Pat::IntS(i, sp) => self.out += &int_pat_src(*i, *sp, self.int_ty),
+            Pat::Const(i) => {
+                self.consts.push(*i);
+                self.out += &const_name(self.prefix, *i);
             }
+            Pat::Char(c) => self.out += &char_src(*c).unwrap_or_else(|| "'?'".to_string()),
             Pat::Str(s) => self.out += &format!("\"{}\"", s),
             Pat::Alt(ps) => {
                 for (i, q) in ps.iter().enumerate() {
@@ -555,7 +776,7 @@ impl<'a> Renderer<'a> {
 }
 
 fn render_single(req: &Req) -> (String, SpanTable) {
-    let mut r = Renderer::new(&req.decls, "", String::new());
+    let mut r = Renderer::for_req(req, "", String::new());
     r.decls_src();
     r.fn_src(req, "f");
     (r.out, r.spans)
@@ -699,7 +920,7 @@ fn answer_batch(items: &[(usize, &str, &Req)], out: &mut Vec<String>) {
     for (k, (_, _, req)) in items.iter().enumerate() {
         let prefix = format!("Zq{}z", k);
         let start = src.len() as u32;
-        let mut r = Renderer::new(&req.decls, &prefix, std::mem::take(&mut src));
+        let mut r = Renderer::for_req(req, &prefix, std::mem::take(&mut src));
         r.decls_src();
         r.fn_src(req, &format!("f{}", k));
         src = r.out;
@@ -824,12 +1045,46 @@ fn prog(path: &str) {
     for (k, line) in text.lines().map(|l| l.trim()).filter(|l| !l.is_empty()).enumerate() {
         let Some(req) = p_req(line) else { continue };
         let prefix = format!("R{}", k);
+        let guarded: Vec<usize> = req.arms.iter().enumerate().filter(|a| a.1 .0).map(|a| a.0).collect();
+        if let Some(lit) = &req.lit {
+            // literal scrutinee: the selector values come out of an array at run time, so neither code generator
+            // can fold the dispatch away
+            if lit.values.is_empty() || guarded.len() > 3 {
+                continue;
+            }
+            let mut r = Renderer::for_req(&req, &prefix, std::mem::take(&mut out));
+            r.fn_src(&req, &format!("f{}", k));
+            let ety = r.ty_src(&req.ty);
+            let int_ty = r.int_ty;
+            out = r.out;
+            let vals: Vec<String> = lit
+                .values
+                .iter()
+                .map(|v| match v {
+                    LVal::S(s) => format!("\"{}\"", s),
+                    LVal::I(i) if lit.lty == "Char" => format!("{}.to_char_unchecked()", i),
+                    LVal::I(i) => int_expr(*i, int_ty),
+                })
+                .collect();
+            out += &format!("fn run{}() {{\n  let vals = Array[{}]::new({});\n", k, ety, vals.join(", "));
+            for c in 0..(1u64 << guarded.len()) {
+                let mut m = 0u64;
+                for (j, arm) in guarded.iter().enumerate() {
+                    if c >> j & 1 == 1 {
+                        m |= 1 << arm;
+                    }
+                }
+                out += &format!("  print(\"{} {}\");\n  for v in vals {{ print(\" \" + f{}(v, {}).to_string()); }}\n  println(\"\");\n", k, c, k, m);
+            }
+            out += "}\n";
+            calls.push(format!("  run{}();\n", k));
+            continue;
+        }
         let Some(vals) = values(&req.decls, &prefix, &req.ty) else { continue };
         let mut r = Renderer::new(&req.decls, &prefix, std::mem::take(&mut out));
         r.decls_src();
         r.fn_src(&req, &format!("f{}", k));
         out = r.out;
-        let guarded: Vec<usize> = req.arms.iter().enumerate().filter(|a| a.1 .0).map(|a| a.0).collect();
         out += &format!("fn run{}() {{\n", k);
         for c in 0..(1u64 << guarded.len()) {
             let mut m = 0u64;
@@ -1398,7 +1653,7 @@ impl RandGen {
             }
             arms.push((g, p));
         }
-        Req { decls: self.decls.clone(), ty, arms }
+        Req { decls: self.decls.clone(), ty, arms, lit: None }
     }
 }
 
@@ -1407,6 +1662,373 @@ fn gen(n: usize, sys: u64) {
     let mut g = RandGen { r: Rng::from_env(), decls: Vec::new(), nbind: 0 };
     for _ in 0..n {
         println!("{}", show_req(&g.request()));
+    }
+}
+
+// ───────────────────────────── generator of literal-scrutinee requests (run-time leg) ─────────────────────────────
+
+/// Selector values for a match with these literals: every literal, both neighbours of the smallest and of the
+/// largest, the type's extremes, 0, -1, and values congruent to a literal modulo 2^8, 2^16, 2^31, 2^32 (one to
+/// three periods above and below) — whatever of that lies in the type; at most `cap` values.
+fn selector_values(lits: &[i64], lty: &str, cap: usize) -> Vec<LVal> {
+    let (lo, hi) = lit_range(lty);
+    let mut v: Vec<i64> = Vec::new();
+    let mut push = |v: &mut Vec<i64>, x: Option<i64>| {
+        if let Some(x) = x {
+            let ok = x >= lo && x <= hi && (lty != "Char" || char::from_u32(x as u32).is_some());
+            if ok && !v.contains(&x) {
+                v.push(x);
+            }
+        }
+    };
+    let mut sorted = lits.to_vec();
+    sorted.sort();
+    sorted.dedup();
+    for &l in &sorted {
+        push(&mut v, Some(l));
+    }
+    if let (Some(&a), Some(&b)) = (sorted.first(), sorted.last()) {
+        for x in [a.checked_sub(1), a.checked_add(1), b.checked_sub(1), b.checked_add(1)] {
+            push(&mut v, x);
+        }
+    }
+    for x in [lo, hi, 0, -1, lo.saturating_add(1), hi - 1] {
+        push(&mut v, Some(x));
+    }
+    // congruent values: around the first, the last and a middle literal
+    let mut anchors: Vec<i64> = Vec::new();
+    if !sorted.is_empty() {
+        for k in [0, sorted.len() - 1, sorted.len() / 2, 1.min(sorted.len() - 1)] {
+            if !anchors.contains(&sorted[k]) {
+                anchors.push(sorted[k]);
+            }
+        }
+    }
+    for times in [1i64, 2, 3] {
+        for sh in [32u32, 31, 16, 8] {
+            for &a in &anchors {
+                let d = (1i64 << sh).checked_mul(times);
+                push(&mut v, d.and_then(|d| a.checked_sub(d)));
+                push(&mut v, d.and_then(|d| a.checked_add(d)));
+            }
+        }
+    }
+    v.truncate(cap);
+    v.into_iter().map(LVal::I).collect()
+}
+
+fn pat_lits(p: &Pat, out: &mut Vec<i64>) {
+    match p {
+        Pat::Int(i) | Pat::IntS(i, _) | Pat::Const(i) => out.push(*i),
+        Pat::Char(c) => out.push(*c as i64),
+        Pat::Alt(ps) => ps.iter().for_each(|q| pat_lits(q, out)),
+        _ => {}
+    }
+}
+
+fn pat_strs(p: &Pat, out: &mut Vec<String>) {
+    match p {
+        Pat::Str(s) => out.push(s.clone()),
+        Pat::Alt(ps) => ps.iter().for_each(|q| pat_strs(q, out)),
+        _ => {}
+    }
+}
+
+fn lit_req(lty: &'static str, arms: Vec<(bool, Pat)>) -> Req {
+    let ty = match lty {
+        "Char" => Ty::Char,
+        "Str" => Ty::Str,
+        _ => Ty::Int,
+    };
+    let values = if lty == "Str" {
+        let mut ws = Vec::new();
+        arms.iter().for_each(|a| pat_strs(&a.1, &mut ws));
+        let mut v: Vec<String> = Vec::new();
+        for w in &ws {
+            let mut c = vec![w.clone(), format!("{}x", w), format!("x{}", w)];
+            if !w.is_empty() {
+                c.push(w[..w.len() - 1].to_string());
+                c.push(w.to_ascii_uppercase().to_ascii_lowercase().chars().rev().collect());
+            }
+            for x in c {
+                if !v.contains(&x) {
+                    v.push(x);
+                }
+            }
+        }
+        for x in ["", "zz"] {
+            if !v.contains(&x.to_string()) {
+                v.push(x.to_string());
+            }
+        }
+        v.truncate(40);
+        v.into_iter().map(LVal::S).collect()
+    } else {
+        let mut ls = Vec::new();
+        arms.iter().for_each(|a| pat_lits(&a.1, &mut ls));
+        selector_values(&ls, lty, 72)
+    };
+    Req { decls: Vec::new(), ty, arms, lit: Some(LitReq { lty, values }) }
+}
+
+/// the literal sets of the systematic part: (name, literals) for a type; dense sets (>= 3 literals, span <= 128) are
+/// lowered to a jump table, the others to a binary search
+fn lit_sets(lty: &str) -> Vec<Vec<i64>> {
+    let (lo, hi) = lit_range(lty);
+    let mut bases: Vec<i64> = vec![0, 1, 5, 100];
+    if lo < 0 {
+        bases.extend([-1, -3, -130, lo, lo + 1]);
+    }
+    if lty == "Int64" {
+        bases.extend([5_000_000_000, -5_000_000_000, (1 << 32) - 1, -(1 << 31) - 1, (1 << 31) - 2]);
+    }
+    if lty == "Int32" {
+        bases.extend([65535, -65537, (1 << 31) - 130]);
+    }
+    let mut sets: Vec<Vec<i64>> = Vec::new();
+    let mut add = |s: Vec<Option<i64>>| {
+        let s: Option<Vec<i64>> = s.into_iter().collect();
+        if let Some(s) = s {
+            if s.iter().all(|x| *x >= lo && *x <= hi) && !sets.contains(&s) {
+                sets.push(s);
+            }
+        }
+    };
+    for &b in &bases {
+        add(vec![Some(b), b.checked_add(1), b.checked_add(2)]); // dense, no hole
+        add(vec![Some(b), b.checked_add(2), b.checked_add(5), b.checked_add(7)]); // dense with holes
+        add(vec![Some(b), b.checked_add(64), b.checked_add(127)]); // span exactly 128: still a table
+        add(vec![Some(b), b.checked_add(64), b.checked_add(128)]); // span 129: binary search
+        add(vec![Some(b), b.checked_add(1)]); // two literals: binary search
+        add(vec![Some(b), b.checked_add(1000), b.checked_add(100_000), b.checked_add(100_001)]); // sparse
+        add(vec![b.checked_add(2), Some(b), b.checked_add(1)]); // dense, written out of order
+    }
+    // ending at the type's maximum
+    add(vec![Some(hi - 2), Some(hi - 1), Some(hi)]);
+    add(vec![Some(hi - 127), Some(hi - 3), Some(hi)]);
+    add(vec![Some(hi - 1), Some(hi)]);
+    add(vec![Some(lo), Some(0), Some(hi)]); // extremes: span does not fit
+    add(vec![Some(lo), Some(hi)]);
+    add(vec![Some(hi)]);
+    add(vec![Some(lo)]);
+    if lty == "UInt8" {
+        add(vec![Some(0), Some(100), Some(255)]);
+        add((120..136).map(Some).collect());
+    }
+    sets
+}
+
+/// the arm shapes of the systematic part over one literal set
+fn lit_shapes(lits: &[i64], mk: &dyn Fn(i64, usize) -> Pat) -> Vec<Vec<(bool, Pat)>> {
+    let n = lits.len();
+    let l = |k: usize| mk(lits[k % n], k);
+    let each = |g: bool| -> Vec<(bool, Pat)> { (0..n).map(|k| (g, l(k))).collect() };
+    let wild = (false, Pat::Wild);
+    let bind = (false, Pat::Var("y".into()));
+    let mut v: Vec<Vec<(bool, Pat)>> = Vec::new();
+    // one arm per literal, `_` default / binding default
+    let mut a = each(false);
+    a.push(wild.clone());
+    v.push(a);
+    let mut a = each(false);
+    a.push(bind.clone());
+    v.push(a);
+    // all literals in one alternative
+    if n >= 2 {
+        v.push(vec![(false, Pat::Alt((0..n).map(l).collect())), wild.clone()]);
+        // first two as an alternative, the rest single, then a duplicate of the first (unreachable)
+        let mut a = vec![(false, Pat::Alt(vec![l(0), l(1)]))];
+        a.extend((2..n).map(|k| (false, l(k))));
+        a.push((false, l(0)));
+        a.push(wild.clone());
+        v.push(a);
+    }
+    // every literal arm guarded, then unguarded again in reverse order, guarded default, default
+    if n <= 2 {
+        let mut a = each(true);
+        a.extend((0..n).rev().map(|k| (false, l(k))));
+        a.push((true, Pat::Wild));
+        a.push(wild.clone());
+        v.push(a);
+    }
+    // guard on the first literal and on a default in the middle; later arms partly unreachable
+    let mut a = vec![(true, l(0)), (false, l(n - 1)), (true, Pat::Wild)];
+    a.extend((0..n).map(|k| (false, l(k))));
+    a.push((true, Pat::Alt(vec![l(0), Pat::Wild])));
+    a.push(wild.clone());
+    v.push(a);
+    // same literal three times with two guards
+    let mut a = vec![(true, l(0)), (true, l(0)), (false, l(0))];
+    a.extend((1..n).map(|k| (k == 1, l(k))));
+    a.push(bind.clone());
+    v.push(a);
+    // default first: everything else unreachable
+    let mut a = vec![wild.clone()];
+    a.extend(each(false));
+    v.push(a);
+    // guarded default first, then the literals, then the default
+    let mut a = vec![(true, Pat::Wild)];
+    a.extend(each(false));
+    a.push(wild);
+    v.push(a);
+    v
+}
+
+fn all_lit_requests() -> (Vec<Req>, Vec<Req>) {
+    let mut core: Vec<Req> = Vec::new();
+    let mut ext: Vec<Req> = Vec::new();
+    for lty in ["Int64", "Int32", "UInt8"] {
+        for (si, set) in lit_sets(lty).iter().enumerate() {
+            let plain = |i: i64, _k: usize| Pat::Int(i);
+            // spellings: hex / binary / underscores / unsuffixed / a const, by position
+            let spelled = |i: i64, k: usize| match k % 6 {
+                0 => Pat::IntS(i, 'x'),
+                1 => Pat::IntS(i, 'u'),
+                2 => Pat::Const(i),
+                3 => Pat::IntS(i, 'b'),
+                4 => Pat::IntS(i, 'p'),
+                _ => Pat::IntS(i, 'd'),
+            };
+            for (hi, arms) in lit_shapes(set, &plain).into_iter().enumerate() {
+                // core = the plain default-arm shape of every set, and two guarded shapes for every third set
+                let is_core = hi == 0 || (si % 3 == 0 && (hi == 5 || hi == 6));
+                if is_core { core.push(lit_req(lty, arms)) } else { ext.push(lit_req(lty, arms)) }
+            }
+            for (hi, arms) in lit_shapes(set, &spelled).into_iter().enumerate() {
+                if hi <= 2 {
+                    ext.push(lit_req(lty, arms));
+                }
+            }
+        }
+    }
+    // Char: generic test-and-branch lowering
+    let chars: &[&[u32]] = &[
+        &['a' as u32, 'b' as u32, 'c' as u32],
+        &[0, 10, 39, 92],
+        &['a' as u32, 0xE9, 0x20AC, 0x10FFFF],
+        &[0xD7FF, 0xE000, 0xFFFF, 0x10000],
+        &['z' as u32],
+    ];
+    for (si, set) in chars.iter().enumerate() {
+        let set: Vec<i64> = set.iter().map(|c| *c as i64).collect();
+        for (hi, arms) in lit_shapes(&set, &|i, _| Pat::Char(i as u32)).into_iter().enumerate() {
+            if hi == 0 && si < 3 { core.push(lit_req("Char", arms)) } else { ext.push(lit_req("Char", arms)) }
+        }
+    }
+    // String
+    let strs: &[&[&str]] = &[&["a", "b", "ab"], &["", "x9"], &["abc", "abd", "ab", "abcd"]];
+    for (si, set) in strs.iter().enumerate() {
+        let idx: Vec<i64> = (0..set.len() as i64).collect();
+        for (hi, arms) in lit_shapes(&idx, &|i, _| Pat::Str(set[i as usize].to_string())).into_iter().enumerate() {
+            if hi == 0 && si < 2 { core.push(lit_req("Str", arms)) } else { ext.push(lit_req("Str", arms)) }
+        }
+    }
+    (core, ext)
+}
+
+/// random literal matches: literal sets around a random base, random arm order, guards, alternatives, duplicates
+fn random_lit_request(r: &mut Rng) -> Req {
+    let lty: &'static str = *r.pickv(&["Int64", "Int64", "Int32", "Int32", "UInt8", "Char"]);
+    let (lo, hi) = lit_range(lty);
+    let base = match r.below(6) {
+        0 => lo,
+        1 => hi - r.below(130) as i64,
+        2 => 0,
+        3 => r.range(-200, 200),
+        4 => (1i64 << *r.pickv(&[8u32, 16, 31, 32, 40])).wrapping_mul(if r.chance(1, 2) { 1 } else { -1 }) + r.range(-3, 3),
+        _ => r.range(lo.max(-1_000_000_000_000), hi.min(1_000_000_000_000)),
+    };
+    let nl = 1 + r.below(7) as usize;
+    let spread = *r.pickv(&[1i64, 1, 2, 3, 9, 40, 127, 128, 129, 1000, 70000]);
+    let mut lits: Vec<i64> = Vec::new();
+    for _ in 0..nl {
+        let x = base.saturating_add(r.range(0, spread.max(nl as i64)));
+        let ok = x >= lo && x <= hi && (lty != "Char" || char_src(x as u32).is_some());
+        if ok {
+            lits.push(x);
+        }
+    }
+    if lits.is_empty() {
+        lits.push(if lty == "Char" { 'q' as i64 } else { 0 });
+    }
+    let mk = |r: &mut Rng, i: i64| -> Pat {
+        if lty == "Char" {
+            return Pat::Char(i as u32);
+        }
+        match r.below(10) {
+            0 => Pat::IntS(i, 'x'),
+            1 => Pat::IntS(i, 'b'),
+            2 => Pat::IntS(i, 'u'),
+            3 => Pat::Const(i),
+            4 if lty != "Int64" => Pat::IntS(i, 'p'),
+            _ => Pat::Int(i),
+        }
+    };
+    let narms = 1 + r.below(7) as usize;
+    let mut arms: Vec<(bool, Pat)> = Vec::new();
+    let mut guarded = 0;
+    for _ in 0..narms {
+        let p = match r.below(10) {
+            0 => Pat::Wild,
+            1 | 2 => {
+                let k = 2 + r.below(3) as usize;
+                Pat::Alt((0..k).map(|_| { let i = *r.pickv(&lits); if r.chance(1, 8) { Pat::Wild } else { mk(r, i) } }).collect())
+            }
+            _ => { let i = *r.pickv(&lits); mk(r, i) }
+        };
+        let g = guarded < 3 && r.chance(1, 3);
+        if g {
+            guarded += 1;
+        }
+        arms.push((g, p));
+    }
+    arms.push((false, if r.chance(1, 3) { Pat::Var("y".into()) } else { Pat::Wild }));
+    lit_req(lty, arms)
+}
+
+/// `genlit n`: the core list, then a seeded selection of the extended systematic list and random matches, n in
+/// total (n >= the number of systematic requests: all of them, the rest random)
+fn gen_lit(n: usize) {
+    let (core, ext) = all_lit_requests();
+    let mut r = Rng::from_env();
+    let mut out: Vec<String> = Vec::new();
+    let mut seen: HashSet<String> = HashSet::new();
+    let mut emit = |out: &mut Vec<String>, q: &Req| {
+        let s = show_req(q);
+        if seen.insert(s.clone()) {
+            out.push(s);
+        }
+    };
+    for q in &core {
+        emit(&mut out, q);
+    }
+    let rest = n.saturating_sub(out.len());
+    let n_ext = if rest >= ext.len() + ext.len() / 3 { ext.len() } else { rest * 2 / 3 };
+    if n_ext >= ext.len() {
+        for q in &ext {
+            emit(&mut out, q);
+        }
+    } else if n_ext > 0 {
+        // a seeded offset and a stride that is coprime to the length walk through the list without repetition
+        let len = ext.len() as u64;
+        let mut stride = next_prime(len / n_ext as u64 + 1);
+        while len % stride == 0 {
+            stride = next_prime(stride + 1);
+        }
+        let mut idx = r.below(len);
+        for _ in 0..n_ext {
+            emit(&mut out, &ext[idx as usize]);
+            idx = (idx + stride) % len;
+        }
+    }
+    let mut tries = 0;
+    while out.len() < n && tries < 10 * n {
+        let q = random_lit_request(&mut r);
+        emit(&mut out, &q);
+        tries += 1;
+    }
+    for l in out {
+        println!("{}", l);
     }
 }
 
@@ -1428,6 +2050,7 @@ fn main() {
             }
         }
         Some("prog") if arg(2).is_some() => prog(arg(2).unwrap()),
-        _ => eprintln!("usage: h_c11 gen <n> [sys] | run [file] | src | prog <file>"),
+        Some("genlit") => gen_lit(arg(2).and_then(|s| s.parse().ok()).unwrap_or(60)),
+        _ => eprintln!("usage: h_c11 gen <n> [sys] | genlit <n> | run [file] | src | prog <file>"),
     }
 }
